@@ -305,7 +305,13 @@ def rule_k2(ctx) -> None:
     # caller treats {} as a miss: result is None -> pipeline
     tc = prog.func(BAL + ".__try_cache")
     rb = prog.func(BAL + ".__rebalance_batch")
-    miss_ok = ".get('result', None)" in unparse(tc.node) and "result is None" in unparse(rb.node)
+    # a miss ({}): __try_cache reads the rows with .get(<key>[, None]) and __rebalance_batch runs the pipeline when they are None
+    gets = [c for c in calls(tc) if isinstance(c.func, ast.Attribute) and c.func.attr == "get" and c.args and const_str(c.args[0]) is not None and (len(c.args) == 1 or (isinstance(c.args[1], ast.Constant) and c.args[1].value is None))]
+    none_tests = [n for n in own_nodes(rb.node) if isinstance(n, ast.Compare) and len(n.ops) == 1 and isinstance(n.ops[0], ast.Is) and isinstance(n.comparators[0], ast.Constant) and n.comparators[0].value is None]
+    runs = [c for c in calls(rb) if (ctx.res.resolve_callee(c, rb) or (None, ""))[1] == BAL + ".__run_pipeline"]
+    rcfg = CFG(rb.node)
+    guarded_run = any(any(isinstance(g, ast.Compare) and g in none_tests or any(x in none_tests for x in ast.walk(g)) for g, _pol in rcfg.guards(rcfg.node_of(c))) for c in runs)
+    miss_ok = len(gets) >= 1 and bool(runs) and (guarded_run or not rcfg.guards(rcfg.node_of(runs[0])))
     ctx.instance("C12-K2", "write_cache is atomic (temp name rejected by the scan + os.replace)", write.loc(), ok=atomic)
     ctx.instance("C12-K2", "load_cache treats undecodable entries as a miss and the caller then runs the pipeline", load.loc(), ok=tolerant and miss_ok)
     if not (atomic or (tolerant and miss_ok)):
